@@ -1159,7 +1159,7 @@ func (fr *FuncRun) makeInterface(st *State, v Val, t types.Type) Val {
 	box, unbox := w.Box(t)
 	bt := fr.def(sInt, "("+box+" "+v.T+")")
 	key := "box:" + bt
-	if fr.once(key) {
+	if !hasBound(bt) && fr.once(key) {
 		fr.emit(fmt.Sprintf("(assert (= (%s %s) %s))", unbox, bt, v.T))
 	}
 	return Val{T: fr.def(sIface, fmt.Sprintf("(mk-iface %d %s)", id, bt)), S: sIface}
@@ -1241,6 +1241,10 @@ func (fr *FuncRun) convert(st *State, v Val, from, to types.Type) Val {
 	case fIsB && tIsB && fb.Info()&types.IsFloat != 0 && tb.Info()&types.IsInteger != 0:
 		// truncation toward zero
 		r := fmt.Sprintf("(ite (>= %s 0.0) (to_int %s) (- (to_int (- %s))))", v.T, v.T, v.T)
+		if q, ok := fr.realQuot[v.T]; ok {
+			// the real is num/den with integer num and positive constant den: truncation is integer division
+			r = fmt.Sprintf("(ite (>= %s 0) (div %s %s) (- (div (- %s) %s)))", q[0], q[0], q[1], q[0], q[1])
+		}
 		if bits, ok := isUnsigned(to); ok {
 			r = "(mod " + r + " " + pow2(bits) + ")"
 		}
@@ -1297,6 +1301,15 @@ func (fr *FuncRun) binop(st *State, op token.Token, a, b Val, at, bt, rt types.T
 	case token.EQL, token.NEQ:
 		var e string
 		e = eq(at_, bt_)
+		if a.S == sSlice && b.S == sSlice {
+			// slices only compare with nil: that is a test of the data pointer
+			switch {
+			case bt_ == "(mk-slice 0 0 0 0)":
+				e = eq("(s-arr "+at_+")", "0")
+			case at_ == "(mk-slice 0 0 0 0)":
+				e = eq("(s-arr "+bt_+")", "0")
+			}
+		}
 		if op == token.NEQ {
 			e = not(e)
 		}
